@@ -8,6 +8,7 @@ M2  ml_gmm_m_step replayed on the exact statistics of every exported state.
 M3  seeded training sets x initial parameters x 8 switch sets x {NumPy, Dask}: rank of the average
     log-likelihood after each iteration, exact comparison of the reported criteria, stopping step;
     validated by TLC against specs/TraceLoop.tla."""
+import os
 import random
 
 import numpy as np
@@ -68,12 +69,17 @@ def m3(ck, em, rng, count):
                     break
                 X, init = gt.make_problem(r)
         storage = None
-        if t % 7 == 3 and not stationary:
+        if t % 7 in (3, 6) and not stationary:
             # integer storage (round eight): features as a front end delivers them -- int16 / int32 counts whose SQUARES
             # do not fit the storage type (|x| up to ~250 in int16, ~60000 in int32); the statistics are moments in
             # float64 whatever the storage, so the trajectory is the one of the float64 copy of the same numbers
-            storage, top = [("int16", 250.0), ("int32", 60000.0), ("int16", 1500.0)][(t // 7) % 3]
-            sc = top / max(1e-9, float(np.abs(X).max()))
+            # the scale puts the square-overflow point (181 / 46340) just below the few largest magnitudes of the data set
+            # (1.5 to 7 % of the entries): a FEW samples are beyond it, so that a moment computed in the storage type is wrong by a few per cent
+            # (variances stay positive, no floor becomes active) rather than absurd
+            storage, limit = [("int16", 181.0), ("int32", 46340.0), ("int16", 181.0), ("int16", 181.0)][(t // 7) % 4]
+            mags = np.sort(np.abs(X).ravel())
+            kth = mags[-max(1, mags.size // (40, 25, 60, 15)[(t // 7) % 4])]
+            sc = limit * 1.03 / max(1e-9, float(kth))
             X = np.round(X * sc).astype(storage)
             init = dict(init, means=np.asarray(init["means"]) * sc, variances=np.asarray(init["variances"]) * sc * sc)
         # half of the traces on the switch sets that freeze the means while updating the variances
@@ -132,6 +138,7 @@ def m3(ck, em, rng, count):
             continue
         tr = gt.build_trace("gmm-ml", ms, A, X, cap, thr, final)
         tr["cap"] = tcap
+        tr["fromStart"] = True      # training starts from the explicit parameters of ms[0]: the first iteration ascends too
         trs.append(tr)
         meta.append({"seed": seed, "n": len(X), "d": X.shape[1], "C": len(init["weights"]), "switches(um,uv,uw)": sw,
                      "cap": fcap, "thr": thr, "placed": placed, "chunks": chunks, "storage": storage, "trainer_set_after_construction": t % 3 == 2, "avg_loglik": A})
